@@ -288,3 +288,56 @@ def identity_on_values(ctx, chk, rule, modules):
                               "(small integers up to 256), so the branch taken depends on the size of the operands" % src(c),
                               expected="== / !=", found=src(c), construct="%s identity comparison" % f.short)
     return n
+
+
+def solver_names(ctx):
+    """Names that the rules must not hard-code (a maintainer may rename them): the local variable of solve() that holds the
+    node list, the Solver field that stores it, and the game field that stores the prune flag.
+    Returns dict(var=..., field=..., flag_field=..., flag_param=...); falls back to the names of the pinned tree."""
+    if "solver_names" in ctx.cache:
+        return ctx.cache["solver_names"]
+    out = {"var": "state_list", "field": "state_list", "flag_field": "prune_states", "flag_param": "prune_states"}
+    try:
+        init, solve = solver_entry(ctx)
+        # state_list = self.init_states()
+        for st in walk_no_nested_defs(solve.node):
+            if isinstance(st, ast.Assign) and len(st.targets) == 1 and isinstance(st.targets[0], ast.Name) and isinstance(st.value, ast.Call) \
+                    and isinstance(st.value.func, ast.Attribute) and st.value.func.attr == "init_states":
+                out["var"] = st.targets[0].id
+        # Solver(<param>=state_list) -> self.<field> = <param>
+        sinit = ctx.prog.resolve_method("Solver", "__init__")
+        param = None
+        for c in walk_no_nested_defs(solve.node):
+            if isinstance(c, ast.Call) and isinstance(c.func, ast.Name) and c.func.id == "Solver":
+                ps = [p for p in sinit.params if p != "self"]
+                for i, a in enumerate(c.args):
+                    if (isinstance(a, ast.Name) and a.id == out["var"]) or (isinstance(a, ast.Call) and isinstance(a.func, ast.Attribute) and a.func.attr == "init_states"):
+                        param = ps[i] if i < len(ps) else None
+                for k in c.keywords:
+                    a = k.value
+                    if (isinstance(a, ast.Name) and a.id == out["var"]) or (isinstance(a, ast.Call) and isinstance(a.func, ast.Attribute) and a.func.attr == "init_states"):
+                        param = k.arg
+        if param is not None and sinit is not None:
+            for st in walk_no_nested_defs(sinit.node):
+                if isinstance(st, ast.Assign) and len(st.targets) == 1 and isinstance(st.targets[0], ast.Attribute) and attr_path(st.targets[0]) \
+                        and attr_path(st.targets[0]).startswith("self.") and isinstance(st.value, ast.Name) and st.value.id == param:
+                    out["field"] = st.targets[0].attr
+        # self.<flag_field> = <flag_param>  (the constructor parameter with a boolean default, named like the pruning flag)
+        flags = [p for p in init.params if "prune" in p]
+        if not flags:
+            flags = [p for p, d in init.defaults.items() if isinstance(d, ast.Constant) and isinstance(d.value, bool)]
+        if flags:
+            out["flag_param"] = flags[0]
+            for st in walk_no_nested_defs(init.node):
+                if isinstance(st, ast.Assign) and len(st.targets) == 1 and isinstance(st.targets[0], ast.Attribute) and isinstance(st.value, ast.Name) \
+                        and st.value.id == flags[0] and attr_path(st.targets[0]) and attr_path(st.targets[0]).startswith("self."):
+                    out["flag_field"] = st.targets[0].attr
+    except AnalysisError:
+        pass
+    ctx.cache["solver_names"] = out
+    return out
+
+
+def SLIST(ctx):
+    """The term `self.<node list field>` inside Solver methods."""
+    return ("attr", ("v", "self"), solver_names(ctx)["field"])
